@@ -17,11 +17,15 @@ def run(ctx: Ctx) -> None:
     from ..tables import t16_losses
     t16_losses.run_pointwise(ctx)
     t16_losses.run_overlap(ctx)
+    t16_losses.run_target_forms(ctx)
     t16_losses.run_weight_shapes(ctx)
     t16_losses.run_definitions(ctx)
     t16_losses.run_module_functional(ctx)
+    t16_losses.run_module_norm(ctx)
     t16_losses.run_invariances(ctx)
     ctx.floor("T16.invariance", 2)
+    ctx.floor("T16.target-forms", 4)
+    ctx.floor("T16.module-norm", 4)
     ctx.floor("T16.module-functional", 10)
     ctx.floor("T16.definition", 2)
     ctx.floor("T16.mask", 6)
